@@ -338,6 +338,40 @@ def pc_report(ck, out, leg):
     return nsteps
 
 
+def managed_registry_leg(ck):
+    """managed(obj) without a typeid, concurrently in several server threads (ManagedReg.tla): the made-up registry entry"""
+    import collections
+    import random
+    from mbt.bind import managedreg as MR
+    thorough = ck.tier == 'thorough'
+
+    def cfg(invariants=(), keep=True, threads=(1, 2), spec='Spec', **kw):
+        return tlc.cfg_text(spec=spec, constants=dict(Threads=set(threads), Classes={'Item', 'RegItem'}, MaxCalls=2, KeepEntry=keep),
+                            invariants=invariants, **kw)
+
+    ck.l1('ManagedReg/concurrent managed() calls never lose their registry entry', 'ManagedReg',
+          cfg(['TypeOK', 'NoKeyError', 'EveryCallGetsProxy', 'EntriesBounded'], threads=(1, 2, 3) if thorough else (1, 2)),
+          may_skip=('Next', 'Pop', 'Done'))
+    ck.sensitive('made-up registry entry deleted "after this single use" (the TODO in managed())', 'ManagedReg',
+                 cfg(['NoKeyError'], keep=False), 'invariant', 'NoKeyError')
+    ck.trap('Trap_BothRegister', 'ManagedReg', cfg(['Trap_BothRegister']))
+    rnd = random.Random(ck.seed * 1000003 + 97)
+    items = [{'id': i + 1, 'sc': sc} for i, sc in enumerate(MR.gen_scenarios(rnd, 96 if thorough else 12))]
+    out = ck.run_binder('managedreg', items, nproc=6, timeout=900, extra={'detsched': False})
+    ck.evaluations += int(out.get('n_exec', 0))
+    for h in out.get('hangs', []):
+        ck.violation({'leg': 'L3', 'kind': 'hang', 'where': 'managed() under concurrent server threads', 'threads': h['hang'],
+                      'item': {'sc': h['sc']}, 'events': h['ev']}, sig={'leg': 'L3', 'kind': 'hang', 'where': 'managedreg'})
+    groups = collections.defaultdict(list)
+    for t in out.get('traces', []):
+        groups[t['nt']].append(t)
+    ck.validate_groups('managed() without typeid called by 2-3 clients at once (create delayed inside the server process)',
+                       'ManagedRegTrace',
+                       [(cfg(spec='TraceSpec', threads=tuple(range(1, nt + 1)), constraint='Progress', postcondition='Report',
+                             deadlock=False), trs) for nt, trs in sorted(groups.items())],
+                       sig_of=lambda t, v: {'where': 'managedreg'})
+
+
 def c14(ck, replay=None):
     if replay is not None:
         return pc_rerun(ck, replay)
@@ -404,6 +438,7 @@ def c14(ck, replay=None):
         'hosted custom class guards its own state with a lock (thread-safety of hosted code is the user\'s business)',
         'list.sort only on mutually ordered elements; search arguments are never proxies (a proxy has identity equality)',
         'operations whose result cannot be pickled are outside the proxy method set']
+    managed_registry_leg(ck)
     ck.finish_rc = ck.finish(rule='every proxied call must give the result / exception class of the model and the value / '
                              'exception args of the same call made directly on a local object; exceptions must be remote '
                              'exceptions carrying server traceback text and leave the proxy usable; concurrent histories '
